@@ -468,6 +468,9 @@ def run_shard(spec_, res):
         run_embedded(res, spec_, rng)
     else:
         run_random(res, spec_, rng)
+    if spec_["part"] == "random":
+        from .. import threadtasks
+        threadtasks.run_loads(res, PROPERTY, random.Random(spec_["seed"] + 99), spec_["seed"], spec_["tier"], 8 if spec_["tier"] == "quick" else 60)
     for name, msg in monitors.take_failures():
         res.violation(f"C08:ambient:{name}", msg, {"monitor": name})
 
